@@ -10,6 +10,8 @@ CLAIMED = {
    text="Lean 4 theorems (Props/C02.lean), all list lengths: the peak index is 0 or the first-largest interior strict local maximum (peakIdx_spec), is 0 exactly when a non-negative spectrum has no interior strict maximum (so NaN is produced then and only then), numpy-argmax semantics for dp, the regenerated npstats.tps kernel equals 1/vertex of the three-point parabola (bridged by rfl), the vertex lies strictly between the neighbouring bin midpoints hence Tp strictly between 1/f[p+1] and 1/f[p-1], dpm/dpspr use the peak row, alpha's window indices are valid. gamma: full statement refuted in Lean by a witness (global maximum on the boundary), partial theorem proved; the same input is a KNOWN-FINDING on the implementation. Tie: differential run of tp/fp/dp/dpm/dpspr/alpha/gamma on multi-modal, flat-topped, equal-peak, monotone, zero spectra at every position of multi-dimensional datasets + brute-force Fraction oracle."),
  "C10": dict(cat="proof", tech="Lean 4 proof: homogeneity, rotation equivariance and Cauchy–Schwarz bounds of the statistics model; pair-law oracle on the implementation",
    text="Lean 4 theorems (Props/C10.lean, 63 obligations), all list lengths: every moment/height radicand/drift/slope is linear in the spectrum (heights ×√k), every period, width, Goda, peak index, fitted peak frequency, peak direction index and gamma is invariant under k>0; relabelling directions rotates the per-frequency moment vectors (tables c'=cC+sS, s'=sC−cS with C²+S²=1) leaving a²+b², e and all table-free statistics unchanged, and the repaired Δθ is unchanged by a 0/360 wrap between the first two stored directions; bounds m1² ≤ m0·m2, m2² ≤ m0·m4, 1/fmax ≤ Tm02 ≤ Tm01 ≤ 1/fmin, swe² ∈ [0,1], sw² ≥ 0, a²+b² ≤ e² (dspr ≤ 81.03°), (·)%360 ∈ [0,360), tp inside the frequency range, dp a coordinate; scale_by_hs gives exactly Hs = |expr| where the condition holds and leaves the spectrum untouched elsewhere. The theorems are about the C01/C02 models (tied by those checks and re-sampled here); this check runs the pair laws and bounds directly on the implementation (S vs kS for k ∈ [1e-6,1e6], S vs relabelled S for any real a, scale_by_hs with random expressions and ranges). Not theorems: sqrt/atan2 steps, float32 rounding of dpm to 360.0; alpha and gw are not claimed scale-free (gw refuted in Lean, observation only)."),
+ "C19": dict(cat="proof", tech="Lean 4 proof: invariants of the greedy matcher and id propagation by induction over time steps; exhaustive + random correspondence",
+   text="Lean 4 theorems (Props/C19.lean, 27 obligations) for every number of steps T ≥ 1, every partition count and every distance matrix (hence every threshold, wind speed and value): ids_marker, ids_unique_per_step, ids_issued_in_order / ids_exact_range (ids are exactly 0..N−1 in order of first appearance), carry_within_thresholds (also on raw fp/dpm with the code's strict comparisons), match_injective / prev_continued_at_most_once, fresh_is_new, no_resurrection, greedy nearest-available characterisation, sites_independent; regenerated literals (999/888 sentinels, 180/360 wrap, defaults) bridged to the model. Tie: np_track_partitions, track_partitions and ptm1_track vs the compiled model on exhaustively enumerated short histories (quick: 2×46,656; thorough: 2×10⁶ with thresholds placed exactly on the alphabet's differences) and random histories up to T=200; the property's direct oracle runs on every implementation output. Not modelled: float evaluation of dfp_wsea (computed by the harness from the docstring and handed over as exact rationals); int16 storage (KNOWN-FINDING F21 beyond 32768 ids)."),
 }
 REASON_TODO = "check not built yet in this session (work in progress; see DESIGN.md Appendix E for the order of construction)"
 NA = {}
